@@ -310,6 +310,12 @@ Grid::add_constraint(const Constraint& c) {
   if (!marked_empty()) {
     add_constraint_no_check(c);
   }
+  else if (c.is_inequality() && !c.is_inconsistent()
+           && !c.is_tautological()) {
+    // Non-trivial inequality constraints are not allowed,
+    // not even when `*this' is empty.
+    throw_invalid_constraint("add_constraint(c)", "c");
+  }
 }
 
 inline void
